@@ -6,6 +6,23 @@ func init() {
 	runners["C01"] = runC01
 	runners["C02"] = runC02
 	runners["C03"] = runC03
+	runners["C17"] = runC17
+}
+
+func runC17(o *Out, rng *Rng, tier string, replay string) {
+	n := engCounts(tier)
+	o.sum.Rule = "case = engine history under the C17 discipline (exactly one update at every day start, flights checked in on the UTC day they depart, in order): 1-8 travellers over 8-40 consecutive days, several flights per day, multi-flight check-ins, departures at exactly midnight and at 23:59:59 region, zero-distance flights, debit on/off, refusals, promised trips kept by updates, trips closed by limits; compared under the C17 projection (flights, travellers and distance bits of every update); Go monitor tallies accepted flights itself; non-trivial = at least 3 updates counted flights and one counted several travellers; distinct by script hash"
+	wd := filepath.Join(o.dir, "dbs")
+	for c := 0; c < n; c++ {
+		r := rng.Fork()
+		cfg := engCfg{nTrav: r.Range(1, 8), days: r.Range(8, 40), promises: -1, strictDaily: true}
+		s := genEngine(r, wd, "C17", cfg)
+		keepFails(o, s, "C17")
+		engNote(o, s)
+		o.AddCase(List(s.coq), s.stat["c17_updates_with_flights"] >= 3 && s.stat["c17_updates_with_several_travellers"] > 0, s.ops)
+		s.close()
+	}
+	engFlush(o, "C17")
 }
 
 func engCounts(tier string) int {
